@@ -1,5 +1,5 @@
 """C03 - see DESIGN.md section 6/C03.  Parts: KernelImpl.tla (TLC) + kernel/subject traces vs Contract.tla (C03 clauses)."""
-import vlib, parts_kernel, parts_pipeline as pp, common
+import vlib, parts_kernel, parts_multi, parts_pipeline as pp, common
 
 PID = 'C03'
 
@@ -14,6 +14,8 @@ def main(argv):
     # schedule replay: one preemption at every hook point (lock boundary / check-then-act window) of a victim producer, operator-level scenarios
     parts_kernel.trace_part(rep, PID, 120 if thorough else 45, [s * 100 + 70 + i for i in range(4 if thorough else 1)], driver='drive-park', label='drive-park')
     pp.run(rep, PID, common.pipeline_cfgs(rep, 'cuts'))
+    # multi-source operators: every input released exactly once, also when one input's teardown panics
+    parts_multi.run(rep, PID, thorough)
     rep.cov['rule'] = common.PIPE_RULE + '; ' + ('kernel traces: seeded scenarios (1-4 producers with legal and illegal scripts, 0-2 unsubscribers, adders, waiters, '
                        'inside-callback unsubscription, panicking teardowns; observable safe/eventually-safe/unsafe and the 5 subjects) run on the real '
                        'library with yield hooks; non-trivial = distinct traces in which two harness threads had calls in flight simultaneously')
@@ -25,4 +27,7 @@ def replay(path):
     vlib.build_harness()
     if path.endswith('.ndjson'):
         return parts_kernel.replay_trace(PID, path)
+    import json
+    if json.load(open(path))['replay'].get('module') == 'MultiGen':
+        return parts_multi.replay_case(PID, path)
     return pp.replay_case(PID, path)
